@@ -13,6 +13,7 @@ import (
 	"runtime"
 	"sort"
 	"strings"
+	"sync/atomic"
 	"time"
 
 	"verif/engine/vnet"
@@ -131,7 +132,14 @@ type worker struct {
 	maxFound int
 }
 
+// Progress is bumped on every execution; the watchdog (outside the bubble) reads it.
+var Progress atomic.Int64
+
+// Busy is true while a task is being served.
+var Busy atomic.Bool
+
 func (w *worker) journalRun(t *Task, prefix []int) {
+	Progress.Add(1)
 	if w.journal == nil {
 		return
 	}
@@ -285,6 +293,7 @@ func WorkerMain() {
 			fmt.Fprintf(os.Stderr, "worker: bad task: %v\n", e)
 			os.Exit(4)
 		}
+		Busy.Store(true)
 		res := &Result{ID: t.ID, Outcomes: map[string]int{}}
 		s := Get(t.Scen)
 		switch {
@@ -297,11 +306,12 @@ func WorkerMain() {
 			w.node(s, t.Prefix, t.Hash, t.Depth, t.Expand)
 		}
 		total += res.Execs
-		if runtime.NumGoroutine() > 3000 {
+		if runtime.NumGoroutine() > 1500 {
 			res.Recycle = true
 		}
 		enc.Encode(res)
 		out.Flush()
+		Busy.Store(false)
 		if res.Recycle {
 			break
 		}
